@@ -38,7 +38,7 @@ def describe(ctx):
                        "exactly the reported nodes, children inside parents, siblings in order. In (3) the byte values are enumerated by the executor through solver concretisation "
                        "(every run is concrete afterwards: the lexer's table lookups on a symbolic byte cost thousands of queries for the same 128 cases).",
         "bounds": {"builder": "k<=5 (6) non-empty nodes, k<=4 (5) with empty nodes, offsets in [0,8]", "event streams": "as C19: n<=5 quick / 7 thorough"},
-        "outside": ["empty nodes sitting exactly on a boundary of another node (their parent is not determined by the statement)", "shipped js/json/test parsers with real lexers (incl. the hand-written parsers/js/parser_impl.go)", "tm texts beyond the four templates"],
+        "outside": ["empty nodes sitting exactly on a boundary of another node (their parent is not determined by the statement)", "shipped json/test parsers with real lexers; the js parser beyond the seven one-byte template families of C19", "tm texts beyond the four templates"],
         "trusted": ["go/ssa", "symgo executor", "z3"],
         "assumptions": [],
     }
